@@ -533,13 +533,13 @@ macro_rules! concat_pairs {
             (U4, U2) (U4, U3) (U4, U4) (U5, U0) (U5, U1) (U5, U2) (U5, U3) (U6, U0)
             (U6, U1) (U6, U2) (U7, U0) (U7, U1) (U8, U0) (U15, U1) (U16, U16) (U17, U15)
             (U31, U33) (U0, U64) (U64, U0) (U255, U1) (U1, U255) (U1023, U1) (U512, U512) (U0, U1024)
-            (U63, U2) (U256, U0))
+            (U63, U2) (U256, U0) (U2048, U1) (U1, U2048))
     };
 }
 
 const BOUNDARY_LEN: &[usize] = &[15, 16, 17, 31, 32, 33, 63, 64, 65, 255, 256, 1023, 1024];
 const BOUNDARY_SPLIT: &[(usize, usize)] = &[(16, 0), (16, 16), (16, 7), (17, 1), (32, 16), (33, 32), (64, 1), (65, 64), (255, 128), (256, 255), (1023, 1023), (1024, 512), (1024, 0), (15, 8), (31, 30), (63, 0)];
-const BOUNDARY_CONCAT: &[(usize, usize)] = &[(15, 1), (16, 16), (17, 15), (31, 33), (0, 64), (64, 0), (255, 1), (1, 255), (1023, 1), (512, 512), (0, 1024), (63, 2), (256, 0)];
+const BOUNDARY_CONCAT: &[(usize, usize)] = &[(15, 1), (16, 16), (17, 15), (31, 33), (0, 64), (64, 0), (255, 1), (1, 255), (1023, 1), (512, 512), (0, 1024), (63, 2), (256, 0), (2048, 1), (1, 2048)];
 
 // one function per operation so that no single function body becomes huge
 fn run_append<T: Elem>(c: &Ctx) -> Out {
